@@ -95,7 +95,17 @@ func genC15Scenario(r *Rng, tier string) *Plan {
 	worldParams(r, p)
 	f := genForest(r, ForestOpts{MaxEnts: 5, MaxDepth: 3, Mix: mixFast, MaxExts: 2, Dirs: r.Bool(), Aliases: r.Bool(),
 		ExtCase: r.Chance(1, 4), KeyIDs: true, Validity: valRelative, JSONMix: r.Chance(1, 4)})
-	if r.Chance(1, 6) {
+	if r.Chance(1, 7) {
+		// certificates that come out with the same length but other bytes when issued again: RSA keys
+		// and signatures (fixed length), random serials of fixed width, static validity, nothing edited -
+		// old and new content cannot be told apart by length, only a full overwrite gets it right
+		for _, e := range f.Ents {
+			e.KeyAlg, e.Serial = "RSA-1024", 0
+			e.SigAlg = Pick(r, rsaSigAlgs)
+			e.Validity = &ValSpec{From: "1999-01-02", Until: "2150-03-04"}
+		}
+		p.Meta["same-length-reissue"] = "1"
+	} else if r.Chance(1, 6) {
 		// certificates that come out byte-identical when issued again: RSA issuers (PKCS#1 v1.5
 		// signatures are deterministic), pinned serial numbers, static validity, reused keys - "was
 		// this file rewritten" and "did its content change" are different questions here
@@ -128,6 +138,12 @@ func genC15Scenario(r *Rng, tier string) *Plan {
 		if trigger == "expiry" {
 			target.Validity = &ValSpec{Duration: "1d"}
 			target.Profile = ""
+		}
+	}
+	if p.Meta["same-length-reissue"] != "" {
+		full, trigger = true, Pick(r, []string{"touch-o", "all"})
+		if target == nil {
+			target = Pick(r, f.Ents)
 		}
 	}
 	if p.Meta["deterministic-reissue"] != "" {
